@@ -74,7 +74,7 @@ def carriers():
     return out, N
 
 
-CONTEXTS = ['guard', 'invariant', 'sync', 'probability', 'select', 'initialiser', 'arraysize', 'range', 'instarg', 'forall', 'exists', 'sum', 'assert', 'query', 'localinit', 'paramrange']
+CONTEXTS = ['guard', 'invariant', 'sync', 'probability', 'select', 'initialiser', 'arraysize', 'range', 'instarg', 'instarg-partial', 'instarg-chain', 'forall', 'exists', 'sum', 'assert', 'query', 'localinit', 'paramrange']
 
 
 def model_xml(decl, ctx, e):
@@ -101,6 +101,11 @@ def model_xml(decl, ctx, e):
 <system>P = T(%s, 1); system P;</system></nta>''' % (
         esc(gdecl), g('paramrange', '4'), esc(tdecl), g('invariant', 'true', '%s >= 0'), '1', g('select', '3'), g('guard', 'true', '%s >= 0'),
         g('sync', 'c[0]!', 'c[%s]!'), esc(quant), g('probability', '1'), g('instarg', '1'))
+    # an argument of a partial instantiation (the line declares a parameter of its own), in last position, and of the outer line of a chain
+    if c['instarg-partial'] is not None:
+        xml = xml.replace('<system>P = T(1, 1); system P;</system>', '<system>P(const int[0,1] kk) = T(kk, %s); system P;</system>' % esc(c['instarg-partial']))
+    if c['instarg-chain'] is not None:
+        xml = xml.replace('<system>P = T(1, 1); system P;</system>', '<system>Q(const int[0,1] kk, const int[0,1] mm) = T(kk, mm); P(const int[0,1] nn) = Q(nn, %s); system P;</system>' % esc(c['instarg-chain']))
     return xml
 
 
